@@ -648,9 +648,11 @@ func (s *sim) forward(bc *bconn, r int, target string, burst int, salt int) erro
 			m.addrAttr, m.hasAddr = "<"+a+">", true
 		default: // noaddr
 			if burst > 1 {
-				// a long unusable address: the result ad echoes it, so the listener's writes to
-				// the broker are long and the members' handlers write at about the same time
-				m.addrAttr, m.hasAddr = fmt.Sprintf("<no usable address %d.%d %s>", r, k, strings.Repeat("x", 12000+(salt+7*k)%20000)), true
+				// a long unusable address: the result ad echoes it (once as MyAddress, twice more
+				// inside ErrorString; the whole ad must stay below the 64 KiB a control ad may
+				// have), so the listener's writes to the broker are long and the members'
+				// handlers write at about the same time
+				m.addrAttr, m.hasAddr = fmt.Sprintf("<no usable address %d.%d %s>", r, k, strings.Repeat("x", 6000+(salt+7*k)%9000)), true
 				break
 			}
 			switch (salt + k) % 3 {
